@@ -346,7 +346,67 @@ func TestC18(t *testing.T) {
 			break
 		}
 	}
-	st.Set("evaluations", st.Get("sequential_ops")+st.Get("race_rounds")+st.Get("interceptor_steps"))
+	// (iv) a matching call racing with prunes that compact the description list in front of its
+	// description: [E1..En (one shot each, other targets), B (5 shots), C1..Cm (live, other target)];
+	// one goroutine uses up the Ei (every exhaustion schedules a prune, which moves B and the Cj
+	// forward), another calls Check with B's parameters five times: each of those calls must fail
+	shiftRounds := 12
+	if thorough {
+		shiftRounds = 150
+	}
+	if widen {
+		shiftRounds = 600
+	}
+	for k := 0; k < shiftRounds && len(st.Violations) == 0; k++ {
+		set := faults.NewSet(fmt.Sprintf("vs%d_%d", Seed(), k))
+		const nE, nC, wide = 300, 300, 40
+		call := map[string]string{"target": "b"}
+		for i := 0; i < wide; i++ {
+			call["k"+fmt.Sprint(i)] = "v" + fmt.Sprint(i)
+		}
+		with := func(target string) map[string]string {
+			p := map[string]string{"target": target}
+			for i := 0; i < wide; i++ {
+				p["k"+fmt.Sprint(i)] = "v" + fmt.Sprint(i)
+			}
+			return p
+		}
+		fired := func(d faults.Description, p faults.Parameters) error { return firedErr{3} }
+		for i := 0; i < nE; i++ {
+			set.Add(faults.Description{Operation: "op", Parameters: with("e" + fmt.Sprint(i)), Count: 1, OnFault: fired})
+		}
+		set.Add(faults.Description{Operation: "op", Parameters: map[string]string{"target": "b"}, Count: 5, OnFault: fired})
+		for i := 0; i < nC; i++ {
+			set.Add(faults.Description{Operation: "op", Parameters: with("c"), Count: 3, OnFault: fired})
+		}
+		var wg sync.WaitGroup
+		wg.Add(1)
+		go func() {
+			defer wg.Done()
+			for i := 0; i < nE; i++ {
+				set.Check("op", with("e"+fmt.Sprint(i)))
+			}
+		}()
+		passed := -1
+		for j := 0; j < 5; j++ {
+			if err := set.Check("op", call); err == nil && passed < 0 {
+				passed = j
+			}
+		}
+		wg.Wait()
+		st.Count("prune_shift_rounds", 1)
+		if passed >= 0 {
+			left := int64(-1)
+			for _, d := range set.Current()["op"] {
+				if d.Parameters["target"] == "b" {
+					left = d.Count
+				}
+			}
+			violate("count-prune-shift", fmt.Sprintf("descriptions for one operation: %d one-shot faults for other targets, {target=b, 5 shots}, %d live faults for target c; while another caller uses up the one-shot faults (each schedules a prune), call %d of 5 with target=b was not failed although its fault had shots left (listing afterwards: count %d)", nE, nC, passed+1, left), true,
+				fmt.Sprintf("nE=%d nC=%d wide=%d passed_call=%d left=%d", nE, nC, wide, passed+1, left))
+		}
+	}
+	st.Set("evaluations", st.Get("sequential_ops")+st.Get("race_rounds")+st.Get("interceptor_steps")+st.Get("prune_shift_rounds"))
 	st.Set("traces_validated_against_impl", nSeq-disagreements)
 	st.Set("rule", "random sequential Add/Check/Current sequences on the real faults.Set compared op by op with the Lean model (which description fired / pass / listing); calls through UnaryFaultInjector with protobuf requests; racing goroutines asserting the exact count min(N, matching calls); distinct = distinct sequential op sequences")
 	st.Summary = fmt.Sprintf("sequences=%d disagreements=%d race_rounds=%d", nSeq, disagreements, st.Get("race_rounds"))
